@@ -198,6 +198,25 @@ func c20InitOne(svcName, filePath string) {
 			return
 		}
 		c20Closure := cfd.Services().ByName(short)
+		// the same file as a hand-built / minimised descriptor set would have it: no explicit
+		// json_name on any field (the derived JSON names are the same)
+		bare := protodesc.ToFileDescriptorProto(gfd)
+		var strip func(ms []*descriptorpb.DescriptorProto)
+		strip = func(ms []*descriptorpb.DescriptorProto) {
+			for _, m := range ms {
+				for _, f := range m.Field {
+					f.JsonName = nil
+				}
+				strip(m.NestedType)
+			}
+		}
+		strip(bare.MessageType)
+		bareFD, err := protodesc.NewFile(bare, protoregistry.GlobalFiles)
+		if err != nil {
+			c20InitErr = err
+			return
+		}
+		c20Bare := bareFD.Services().ByName(short)
 		c20VariantsBy[svcName] = []c20Variant{
 			{"generated (NewService by name)", func(h http.Handler, opts ...vanguard.ServiceOption) (*vanguard.Service, error) {
 				return vanguard.NewService(svcName, h, opts...), nil
@@ -210,6 +229,7 @@ func c20InitOne(svcName, filePath string) {
 			{"global-types resolver for a fresh copy", withSchema(c20Fresh, vanguard.WithTypeResolver(protoregistry.GlobalTypes))},
 			{"descriptor set with its full import closure rebuilt", withSchema(c20Closure)},
 			{"rebuilt closure, resolver that knows nothing", withSchema(c20Closure, vanguard.WithTypeResolver(emptyResolver{}))},
+			{"fresh copy whose fields carry no explicit json_name", withSchema(c20Bare)},
 		}
 	}()
 }
